@@ -425,6 +425,9 @@ func corpus(c *Ctx, mutPerSample, jpegGen int) []epInput {
 	// generated Exif files (TIFF and in JPEG / PNG / HEIF): valid metadata in every field parser, a quarter of them with
 	// zero denominators in their rational values, IFD1, many-tag layouts
 	out = append(out, genExifInputs(c, jpegGen/6+8)...)
+	// generated XMP packets, whole and cut off at every kind of place, and attribute-dense packets that end inside a tag
+	// (every look-ahead of the tokenizer near the end of the stream asks the source again unless it remembers the end)
+	out = append(out, genXmpTruncated(c, jpegGen/6+8)...)
 	return out
 }
 
